@@ -77,6 +77,14 @@ def main():
             proof_fail = "theorem depends on axioms outside the allowlist: " + ", ".join(extra)
         elif coq.get("n_closed", 0) + (1 if coq.get("axioms") else 0) < 1:
             proof_fail = "no Print Assumptions output under the property theorems"
+    chk = None
+    if tier == "thorough" and not proof_fail and not a.replay:
+        chk = build.coqchk(spec["prop_file"])
+        if chk["rc"] != 0:
+            proof_fail = "coqchk rejected the compiled development: " + chk["tail"][-400:]
+        elif [x for x in chk["axioms"] if x not in allowed]:
+            proof_fail = "coqchk reports axioms outside the allowlist: " + ", ".join(chk["axioms"])
+    coq["coqchk"] = chk
     deps = build.coq_deps(spec["prop_file"]) if not coq.get("failed") == "make" else []
     obligations = build.count_obligations(deps) if deps else 0
 
@@ -136,6 +144,7 @@ def finish(ctx, spec, coq, obligations, proof_fail, evidence_path):
             "modelled, not verified: fjall (ordered KV + atomic batch), scru128 (id oracle), tokio channels, cacache, serde_json/serde_urlencoded, hyper, Nushell",
         ],
         print_assumptions=dict(closed=coq.get("n_closed", 0), axioms=coq.get("axioms", [])),
+        coqchk=coq.get("coqchk"),
         coq_build_s=round(coq.get("wall_s", 0), 1),
     ))
     ev = dict(property_id=ctx.pid, tier=ctx.tier, seed=ctx.seed, level=spec.get("level", "proof"),
